@@ -22,6 +22,10 @@ package syncer
 //@ pure wf(h *historyBuffer) = h.size >= 2 && h.size <= MaxInt32 && len(h.records) == h.size && 0 <= h.head && h.head < h.size && 0 <= h.tail && h.tail < h.size && h.index >= cnt(h)
 //@ pure slot(h *historyBuffer, k int) = ite(h.head + k < h.size, h.head + k, h.head + k - h.size)
 //@ pure first(h *historyBuffer) = h.index - cnt(h)
+// The index stored under "historyIndex" and the bound that a restart relies on: as long as the periodic saves
+// succeed, the in-memory next index is ahead of the stored one by exactly the records since the last flush (< 100).
+//@ pure persistedIndex() = euf("parseuint", kvval["historyIndex"], 10)
+//@ pure lagOK(h *historyBuffer) = kvhas["historyIndex"] && h.index == persistedIndex() + (100 - h.flushCount)
 
 //@ func (*historyBuffer).distanceToTail
 //@   props C16
@@ -34,7 +38,8 @@ package syncer
 //@   props C16
 //@   requires wf(h)
 //@   ensures wf(h) && h.index == index && cnt(h) == 0 && h.flushCount == 100
-//@   modifies h.index, h.head, h.tail, h.flushCount
+//@   ensures [lag] lagOK(h) || (last("kvSave") > old(evclock[0]) && kvval == old(kvval) && kvhas == old(kvhas))
+//@   modifies h.index, h.head, h.tail, h.flushCount, ghost kvhas, ghost kvval
 
 //@ func (*historyBuffer).Record
 //@   props C16
@@ -46,7 +51,10 @@ package syncer
 //@   ensures [newest] h.records[slot(h, cnt(h) - 1)] == r
 //@   ensures [window] forall i :: first(h) <= i && i < h.index - 1 ==> h.records[slot(h, i - first(h))] == old(h.records[slot(h, i - first(h))])
 //@   ensures [flush] 0 < h.flushCount && h.flushCount <= 100
-//@   modifies h.index, h.head, h.tail, h.flushCount, h.records[*]
+//@   ensures [persist-on-flush] old(h.flushCount) == 1 ==> (kvhas["historyIndex"] && persistedIndex() == h.index) || (kvval == old(kvval) && kvhas == old(kvhas))
+//@   ensures [persist-only-on-flush] old(h.flushCount) != 1 ==> kvval == old(kvval) && kvhas == old(kvhas)
+//@   ensures [lag] old(lagOK(h)) ==> lagOK(h) || (old(h.flushCount) == 1 && last("kvSave") > old(evclock[0]) && kvval == old(kvval) && kvhas == old(kvhas))
+//@   modifies h.index, h.head, h.tail, h.flushCount, h.records[*], ghost kvhas, ghost kvval
 
 //@ func (*historyBuffer).RecordsFrom
 //@   props C16
